@@ -72,6 +72,12 @@ impl ByteCompiler<'_> {
                 }
                 TemplateElement::Expr(expr) => {
                     self.compile_expr(expr, &value);
+                    // Each substitution is converted with `ToString` before the next one is
+                    // evaluated.
+                    let mut single = ThinVec::with_capacity(1);
+                    single.push(value.variable());
+                    self.bytecode
+                        .emit_concat_to_string(value.variable(), single);
                 }
             }
             registers.push(value);
